@@ -46,9 +46,13 @@ INSTALL = [
     ),
 ]
 
-# The same flags for EVERY invocation (codegen and all harnesses): differing
-# flags would make cargo rebuild the crate and parallel runs would race.
-KANI_FLAGS = ["-Z", "stubbing", "-Z", "concrete-playback", "--concrete-playback=print"]
+# Flags of every verification run.  (`-Z stubbing`: k_arguments_* replace
+# core::str::from_utf8 by an ASCII-only stand-in.)
+KANI_FLAGS = ["-Z", "stubbing"]
+# Only for the second run of a FAILED harness: makes Kani print the concrete
+# values of the kani::any() calls.  Not used in the first run because it slows
+# down every (also every successful) run by about 50 %.
+PLAYBACK_FLAGS = ["-Z", "concrete-playback", "--concrete-playback=print"]
 
 CODEGEN_TIMEOUT = 1200
 
@@ -107,36 +111,67 @@ def build_scratch(repo):
         raise
 
 
-def run_cmd(cmd, cwd, timeout):
+# `cargo kani --harness X` recompiles the crate for X (fast, under cargo's lock
+# on the target dir) and then reads the metadata file that this compilation
+# wrote.  Two invocations must not interleave between these two steps, so the
+# phase up to Kani's "Checking harness" line is serialised.
+_compile_lock = threading.Lock()
+
+
+def run_cmd(cmd, cwd, timeout, serialise_until=None):
     """Runs cmd in its own process group; kills the whole group on timeout.
     Returns (returncode or None on timeout, output, seconds)."""
+    held = False
+    if serialise_until is not None:
+        _compile_lock.acquire()
+        held = True
     start = time.time()
-    proc = subprocess.Popen(
-        cmd,
-        cwd=cwd,
-        env=make_env(),
-        stdout=subprocess.PIPE,
-        stderr=subprocess.STDOUT,
-        start_new_session=True,
-        text=True,
-        errors="replace",
-    )
+    proc = None
+    timed_out = threading.Event()
+    timer = None
     try:
-        out, _ = proc.communicate(timeout=timeout)
-        return proc.returncode, out, time.time() - start
-    except subprocess.TimeoutExpired:
-        try:
-            os.killpg(proc.pid, signal.SIGKILL)
-        except ProcessLookupError:
-            pass
-        out, _ = proc.communicate()
-        return None, out, time.time() - start
+        proc = subprocess.Popen(
+            cmd,
+            cwd=cwd,
+            env=make_env(),
+            stdout=subprocess.PIPE,
+            stderr=subprocess.STDOUT,
+            start_new_session=True,
+            text=True,
+            errors="replace",
+        )
+
+        def kill():
+            timed_out.set()
+            try:
+                os.killpg(proc.pid, signal.SIGKILL)
+            except ProcessLookupError:
+                pass
+
+        timer = threading.Timer(timeout, kill)
+        timer.daemon = True
+        timer.start()
+        lines = []
+        for line in proc.stdout:
+            lines.append(line)
+            if held and line.startswith(serialise_until):
+                _compile_lock.release()
+                held = False
+        proc.wait()
+        out = "".join(lines)
+        return (None if timed_out.is_set() else proc.returncode), out, time.time() - start
     except BaseException:
-        try:
-            os.killpg(proc.pid, signal.SIGKILL)
-        except ProcessLookupError:
-            pass
+        if proc is not None:
+            try:
+                os.killpg(proc.pid, signal.SIGKILL)
+            except ProcessLookupError:
+                pass
         raise
+    finally:
+        if timer is not None:
+            timer.cancel()
+        if held:
+            _compile_lock.release()
 
 
 def last_lines(text, n=25):
@@ -172,9 +207,9 @@ def counterexample(out):
 def run_harness(entry, workdir, timeout):
     name = entry["name"]
     # `--harness` is a substring filter; the names in harnesses.json are chosen
-    # so that none contains another (checked below: exactly one verdict)
+    # so that none contains another (checked below: one verdict, right harness)
     cmd = ["cargo", "kani"] + KANI_FLAGS + ["--harness", name]
-    rc, out, secs = run_cmd(cmd, workdir, timeout)
+    rc, out, secs = run_cmd(cmd, workdir, timeout, serialise_until="Checking harness")
     res = {
         "harness": name,
         "status": None,
@@ -186,19 +221,20 @@ def run_harness(entry, workdir, timeout):
         "detail": None,
     }
     verdicts = re.findall(r"^VERIFICATION:- (\w+)", out, re.M)
+    checked = re.findall(r"^Checking harness (\S+?)\.\.\.", out, re.M)
     if rc is None:
         res["status"] = "timeout"
         res["detail"] = "no verdict within %d s\n%s" % (timeout, last_lines(out, 5))
-    elif len(verdicts) != 1:
-        # 0: did not get to verification (compile error, unknown harness);
-        # >1: the filter matched several harnesses, which must not happen
+    elif len(verdicts) != 1 or len(checked) != 1 or checked[0].split("::")[-1] != name:
+        # did not get to verification (compile error, unknown harness), or the
+        # filter selected something else than exactly this harness
         res["status"] = "error"
-        res["detail"] = ("%d verdicts, exit code %s\n" % (len(verdicts), rc)) + last_lines(out)
+        res["detail"] = ("%d verdicts, harnesses checked %s, exit code %s\n" % (len(verdicts), checked, rc)) \
+            + last_lines(out)
     elif verdicts[0] == "SUCCESSFUL" and rc == 0:
         res["status"] = "pass"
     elif verdicts[0] == "FAILED":
         res["status"] = "fail"
-        res["counterexample"] = counterexample(out)
         checks = failed_checks(out)
         res["detail"] = "\n".join(checks) if checks else last_lines(out)
     else:
@@ -207,9 +243,17 @@ def run_harness(entry, workdir, timeout):
     return res
 
 
+def add_counterexample(res, workdir, timeout):
+    """Second run of a failed harness, with concrete playback."""
+    cmd = ["cargo", "kani"] + KANI_FLAGS + PLAYBACK_FLAGS + ["--harness", res["harness"]]
+    rc, out, secs = run_cmd(cmd, workdir, timeout, serialise_until="Checking harness")
+    res["counterexample"] = counterexample(out)
+    res["seconds_counterexample_run"] = round(secs, 1)
+
+
 def select(all_entries, wanted):
     if not wanted:
-        return list(all_entries), []
+        return [e for e in all_entries if e.get("default", True)], []
     by_name = {e["name"]: e for e in all_entries}
     chosen, unknown = [], []
     for w in wanted:
@@ -237,7 +281,7 @@ def main():
     entries = json.load(open(os.path.join(HERE, "harnesses.json")))
     if args.list:
         for e in entries:
-            print("%-28s %-14s %s" % (e["name"], ",".join(e["property"]), "complete" if e["complete"] else "bounded"))
+            print("%-28s %-14s %-9s %s" % (e["name"], ",".join(e["property"]), "complete" if e["complete"] else "bounded", "" if e.get("default", True) else "(not in the default set)"))
         return 0
 
     wanted = [n for group in args.harness for n in group]
@@ -277,7 +321,13 @@ def main():
                     results.append(r)
             else:
                 with concurrent.futures.ThreadPoolExecutor(max_workers=max(1, args.jobs)) as pool:
-                    futs = [pool.submit(run_harness, e, workdir, args.timeout) for e in chosen]
+                    def job(e):
+                        r = run_harness(e, workdir, args.timeout)
+                        if r["status"] == "fail":
+                            add_counterexample(r, workdir, args.timeout)
+                        return r
+
+                    futs = [pool.submit(job, e) for e in chosen]
                     for f in concurrent.futures.as_completed(futs):
                         r = f.result()
                         emit(r)
